@@ -296,6 +296,20 @@ NEEDS.update({
 def _r9src(n):
     return "/tmp/mut9/%s/_out/%s" % (n[2:4], n[4])
 SRC_OVERRIDE.update({n: _r9src(n) for n in NEEDS if n.startswith("R9")})
+# round 10 (continuation session): one agent per property for the properties with the fewest kept changes; ids R10m<n>A
+NEEDS.update({
+ "R10m1A": ("C06", "expand_message (XMD and XOF) gains the RFC 5.3.3 oversize-tag path, tested on DST_prime (len + 1 > 255) instead of DST", "a domain-separation tag of exactly 255 bytes: every hash_to_field / hash_to_curve / encode_to_curve value differs; 0..254 bytes unchanged"),
+ "R10m2A": ("C07", "SubgroupCheck::in_subgroup for G1Affine no longer calls is_on_curve(), only [r]P == O", "an off-curve pair on an isomorphic curve y^2 = x^3 + 4 s^6, e.g. (4X, 8Y) for (X,Y) in G1: the Jacobian formulas never use b, so [r](4X,8Y) = O and the pair is accepted"),
+ "R10m3A": ("C08", "inherent Fq::pow (shadows Field::pow on the concrete type) loads the exponent into a 6-limb FqRepr", "an exponent with a non-zero limb at index 6 or above, through the concrete method (the trait path is unchanged)"),
+ "R10m5A": ("C11", "Bls12::miller_loop returns Fq12::one() as soon as ANY pair has an operand at infinity (instead of skipping that pair)", "a multi-pair call (miller_loop / pairing_product / pairing_multi_product) containing an identity pair next to a non-trivial pair: the whole product collapses to 1"),
+ "R10m6A": ("C15", "G2 osswu_map caches the sign of u as u.c0.sgn0() instead of u.sgn0()", "u with c0 == 0 and c1 odd (purely imaginary): the map returns -P, sgn0(y) != sgn0(u)"),
+ "R10m7A": ("C18", "Fq2::legendre fast path for c0 == 0 returns c1.legendre(); Fq2::sqrt decides 'no root' from self.legendre() (two cooperating sites)", "a = c1*u with c1 a non-residue of Fq (e.g. -u): legendre says non-residue, sqrt returns None although a root exists"),
+ "R10m8A": ("C12", "final_exponentiation fast path: r.c1 == 0 (r in Fq6) returns Some(1)", "the single input Fq12::zero(): Some(1) instead of None"),
+ "R10m9A": ("C16", "eval_iso 'normalised input' fast path taken when Z^2 == 1 skips the final yden *= Z^3", "a Jacobian representative with Z = -1: the image is negated (both isogenies)"),
+ "R10m0A": ("C05", "G1Compressed::from_affine decides the sort flag from the top 16 bits of y against 0x0d00 and, on a tie, falls back to the full comparison with swapped operands", "a subgroup point whose y has top 16 bits 0x0d00 (about 1 point in 6657): the flag is inverted, the encoding decodes to -P"),
+ "R10m4A": ("C17", "chain_z returns early when the accumulator is the identity after the link that computes 3P", "a chain input of order 3, e.g. (0, 2) on E(Fq): clear_h returns the point itself instead of the identity"),
+})
+SRC_OVERRIDE.update({n: "/tmp/mut10/m%s/_out/A" % n[4] for n in NEEDS if n.startswith("R10")})
 REJECT = {
  "R9p2A": "only the coordinate LABEL inside CoordinateDecodingError changes; the category (coordinate range) and its position in the validation order are unchanged, which is all C04 states. A behaviour-preserving control (BENb: 'another order of the range checks inside the coordinate stage') makes the same change and must stay silent.",
  "R9p2C": "the triggering points exist only outside the order-r subgroup (the author says so): outside C05's domain, like C05A.",
@@ -355,6 +369,13 @@ def main():
         if name in REJECT:
             meta["kept"] = False
             meta["rejected_because"] = REJECT[name]
+        if name.startswith("R10"):
+            meta["property_attacked"] = {"0": "C05", "1": "C06", "2": "C07", "3": "C08", "4": "C17", "5": "C03", "6": "C15", "7": "C18", "8": "C12", "9": "C16"}[name[4]]
+        if name == "R10m0A":
+            meta["first_evaluation"] = ("committed check before the strengthening: VIOLATION at seed 1 only through a pseudo-random chain point that happened to "
+                                        "have such a y, OK (missed) at seed 5; after the enc-half class was added: reported at seeds 1, 5, 6 on a constructed point")
+        if name == "R10m5A":
+            meta["note"] = "written against C03; single pairings are unaffected, the multi-pair product is C11's subject and C11 reports it"
         if name == "R8n2A":
             meta["not_detected_because"] = ("the second string must collide with the first under a 64-bit fingerprint that only the changed code defines; "
                                             "no execution the checks produce (or could produce without reading that hash) contains such a pair, and every "
@@ -373,7 +394,7 @@ def main():
             json.dump(meta, open(d + "/meta.json", "w"), indent=1)
         else:
             shutil.copy(src + "/patch.diff", d + "/patch.diff")
-        for f in ("demo.rs", "notes.md"):
+        for f in ("demo.rs", "notes.md", "note.txt"):
             if os.path.exists(src + "/" + f):
                 shutil.copy(src + "/" + f, d + "/" + f)
         json.dump(meta, open(d + "/meta.json", "w"), indent=1)
